@@ -348,6 +348,10 @@ ARGS_LOOP:
 		// parents so it marks them as an unknown option that needs to be used at a
 		// different level. It is as if it was ignoring getoptions.Pass.
 		if optPair, is := isOption(iterator.Value(), mode, false); is {
+			// The token as written, it is passed through at most once and verbatim even when it
+			// bundles several unknown options.
+			token := iterator.Value()
+			tokenPassed := false
 
 			// iterate over the possible cli args and try matching against expectations
 			for _, p := range optPair {
@@ -370,7 +374,10 @@ ARGS_LOOP:
 
 					switch currentProgramNode.unknownMode {
 					case Pass, Warn:
-						currentProgramNode.ChildText = append(currentProgramNode.ChildText, iterator.Value())
+						if !tokenPassed {
+							currentProgramNode.ChildText = append(currentProgramNode.ChildText, token)
+							tokenPassed = true
+						}
 					}
 					continue
 				}
